@@ -33,7 +33,7 @@ func writeManifest() int {
 	sort.Strings(ids)
 	env := "GOFLAGS=-mod=mod GOPROXY=off GOSUMDB=off GOTOOLCHAIN=local GOWORK=off"
 	var checks []map[string]any
-	var na []map[string]any
+	na := []map[string]any{}
 	var claimed []string
 	for _, id := range ids {
 		s := registry[id]
